@@ -13,6 +13,11 @@
      SaveLegacy(L)      a file written by an old version: logits only, no character tables / windows
      Load(L, k, lc)     load_logits(path | bytes)
      Dense(L, i, fl)    get_dense_logits(zero_logit_value = -fl) of line i (+ get_full_logprobs, judged in the trace layer)
+     Observe(kind, L, i, tok)  an output computed from the layout: kind "decode" = transcription of line i produced by the
+                        page decoder (a function of the line's logits and character table), kind "alto" = the text of the
+                        ALTO export of the whole layout (a function of the lines' ids and their three components; the
+                        ids stand for what PAGE XML carries: transcription and geometry).  tok is an opaque token; the
+                        action only demands that equal inputs give equal outputs (obsmap stays a function).
    What the statement leaves open is left open: with ok = TRUE a line with a missing component may or may
    not be written (S); after loading a legacy file the character table / window of a matched line are
    whatever the code chooses (lc).                                                                    *)
@@ -21,6 +26,7 @@ CONSTANTS InitA, InitB,     \* sets of initial layouts
           Mats,             \* tag |-> matrix
           Floors,           \* magnitudes of the floor value exercised (80 = the default -80)
           SaveFrom, LoadInto, DenseOn,   \* design only: which layouts the calls are applied to (bounds the search)
+          ObsToks,          \* design only: tokens an output may take ({} switches Observe off)
           MaxOps
 
 None == 0
@@ -41,14 +47,15 @@ VARIABLES lay,      \* name |-> layout
           sbefore,  \* history: store before the last call
           last,     \* the last call and its outcome
           obs,      \* result of the last Dense
+          obsmap,   \* outputs observed so far: set of [kind, key, tok]
           nops
-vars == <<lay, store, origin, before, sbefore, last, obs, nops>>
+vars == <<lay, store, origin, before, sbefore, last, obs, obsmap, nops>>
 
 Call(op, L, k, ok, status, i, fl) == [op |-> op, L |-> L, k |-> k, ok |-> ok, status |-> status, i |-> i, fl |-> fl]
 
 Init == /\ \E a \in InitA, b \in InitB : lay = [n \in Names |-> IF n = "A" THEN a ELSE b]
         /\ store = [k \in Slots |-> NoStore] /\ origin = [k \in Slots |-> <<>>]
-        /\ before = lay /\ sbefore = store /\ last = Call("none", "A", "file", FALSE, "ok", 0, 0) /\ obs = <<>> /\ nops = 0
+        /\ before = lay /\ sbefore = store /\ last = Call("none", "A", "file", FALSE, "ok", 0, 0) /\ obs = <<>> /\ obsmap = {} /\ nops = 0
 
 Save(L, k, ok) ==
   /\ nops < MaxOps
@@ -63,7 +70,7 @@ Save(L, k, ok) ==
              /\ origin' = [origin EXCEPT ![k] = src]
              /\ last' = Call("Save", L, k, ok, "ok", 0, 0)
   /\ before' = lay /\ sbefore' = store /\ nops' = nops + 1
-  /\ UNCHANGED <<lay, obs>>
+  /\ UNCHANGED <<lay, obs, obsmap>>
 
 SaveLegacy(L) ==
   /\ nops < MaxOps
@@ -72,7 +79,7 @@ SaveLegacy(L) ==
   /\ origin' = [origin EXCEPT !["file"] = lay[L]]
   /\ last' = Call("SaveLegacy", L, "file", FALSE, "ok", 0, 0)
   /\ before' = lay /\ sbefore' = store /\ nops' = nops + 1
-  /\ UNCHANGED <<lay, obs>>
+  /\ UNCHANGED <<lay, obs, obsmap>>
 
 Load(L, k, lc) ==
   /\ nops < MaxOps /\ store[k].present
@@ -86,7 +93,7 @@ Load(L, k, lc) ==
                      ELSE [id |-> l.id, lg |-> Ent(l).lg, ch |-> Ent(l).ch, co |-> Ent(l).co]]]
   /\ last' = Call("Load", L, k, FALSE, "ok", 0, 0)
   /\ before' = lay /\ sbefore' = store /\ nops' = nops + 1
-  /\ UNCHANGED <<store, origin, obs>>
+  /\ UNCHANGED <<store, origin, obs, obsmap>>
 
 DenseOf(m, fl) == [r \in 1..Len(m) |-> [c \in 1..Len(m[r]) |-> IF m[r][c] = 0 THEN 0 - 8 * fl ELSE m[r][c]]]
 Dense(L, i, fl) ==
@@ -94,13 +101,25 @@ Dense(L, i, fl) ==
   /\ obs' = DenseOf(Mats[lay[L][i].lg], fl)
   /\ last' = Call("Dense", L, "file", FALSE, "ok", i, fl)
   /\ before' = lay /\ sbefore' = store /\ nops' = nops + 1
-  /\ UNCHANGED <<lay, store, origin>>
+  /\ UNCHANGED <<lay, store, origin, obsmap>>
+
+Observe(kind, L, i, tok) ==
+  /\ nops < MaxOps /\ kind \in {"decode", "alto"}
+  /\ (kind = "decode") => (i \in 1..Len(lay[L]) /\ lay[L][i].lg # None /\ lay[L][i].ch # None)
+  /\ LET key == IF kind = "decode" THEN <<[id |-> "", lg |-> lay[L][i].lg, ch |-> lay[L][i].ch, co |-> None]>> ELSE lay[L]
+     IN /\ \A e \in obsmap : (e.kind = kind /\ e.key = key) => e.tok = tok         \* equal inputs, equal outputs
+        /\ obsmap' = obsmap \cup {[kind |-> kind, key |-> key, tok |-> tok]}
+  /\ last' = Call("Observe", L, "file", FALSE, "ok", i, 0)
+  /\ before' = lay /\ sbefore' = store /\ nops' = nops + 1
+  /\ UNCHANGED <<lay, store, origin, obs>>
 
 LegacyDefault(L) == [i \in 1..Len(lay[L]) |-> <<None, NoneNone>>]
 Next == \/ \E L \in SaveFrom, k \in Slots, ok \in BOOLEAN : Save(L, k, ok)
         \/ \E L \in SaveFrom : SaveLegacy(L)
         \/ \E L \in LoadInto, k \in Slots : Load(L, k, LegacyDefault(L))
         \/ \E L \in DenseOn, fl \in Floors : \E i \in 1..Len(lay[L]) : Dense(L, i, fl)
+        \/ \E L \in DenseOn, tok \in ObsToks : \/ Observe("alto", L, 0, tok)
+                                                 \/ \E i \in 1..Len(lay[L]) : Observe("decode", L, i, tok)
 Spec == Init /\ [][Next]_vars
 
 \* ======================================== properties (C09) ==========================================
@@ -152,5 +171,8 @@ InvDense ==
         /\ \A r \in 1..Len(m) : /\ Len(obs[r]) = Len(m[r])
                                 /\ \A c \in 1..Len(m[r]) : obs[r][c] = IF m[r][c] # 0 THEN m[r][c] ELSE 0 - 8 * last.fl
         /\ lay = before /\ store = sbefore
+\* a layout rebuilt from the saved logits gives the same outputs as the original: outputs are functions of the restored
+\* components (obsmap is a function), and InvRestore says the components are restored
+InvFunctional == \A e, f \in obsmap : (e.kind = f.kind /\ e.key = f.key) => e.tok = f.tok
 InvUnique == \A L \in Names : UniqueIds(lay[L])
 =============================================================================
